@@ -34,8 +34,9 @@ def apply(copy, mutant):
         open(p, "w").write(s.replace(old, new))
 
 
-def run_check(prop, copy, runs, jobs):
+def run_check(prop, copy, runs, jobs, extra_env=None):
     env = dict(os.environ)
+    env.update(extra_env or {})
     env["VERIF_REPO"] = copy
     rdir = os.path.join(copy, "replays")
     os.makedirs(rdir, exist_ok=True)
@@ -69,7 +70,7 @@ def main():
         c = make_copy()
         try:
             apply(c, m)
-            cp = run_check(prop, c, runs, jobs)
+            cp = run_check(prop, c, runs, jobs, m.get("env"))
             sigs = sorted({l.split("signature=")[1].split(" run_index")[0] for l in cp.stdout.splitlines() if "signature=" in l})
             caught = cp.returncode == 1
             results.append((m["name"], caught))
